@@ -164,11 +164,12 @@ def t(f): try f catch "\u0001err";
 def tup: if _is_decode_value then [._start, ._stop, ._name, ._index] else null end;
 def tv($small): if $small and _is_decode_value then t(tovalue | tojson) else null end;
 .nodes as $ns | .probes as $ps | $ns[0][0] as $r
-| ( $ns[] | .[0] as $v | .[1] as $small
+| ( $ns[] | .[0] as $v | .[1] as $small | .[2] as $compound
   | t($v | topath) as $p
   | t($r | getpath($p)) as $g
   | [ $p, $g, t($v | parent), t($v | root), t($v | buffer_root), t($v | format_root), t([$v | parents])
-    , t($v | tup), t($g | tup), ($v | tv($small)), ($g | tv($small)) ]
+    , t($v | tup), t($g | tup), ($v | tv($small)), ($g | tv($small))
+    , t($v | if $compound then [keys, [keys[] as $k | .[$k]], length] else null end) ]
   )
 , ( $ps[] | . as $p | [ t($r | getpath($p)) ] )
 `
@@ -355,7 +356,10 @@ func runTree(o *hlib.Out, r *hlib.Rand, tc treeCase, maxNodes int, note string) 
 	for i, n := range t.nodes {
 		// tovalue|tojson of both sides is hashed for small values only (cost), in large trees for every 4th node
 		small := n.size <= smallSubtree && n.dv.Range.Len <= 2048 && (len(t.nodes) <= 150 || i%4 == 0)
-		nodes[i] = []any{interp.VerifC12Wrap(n.dv), small}
+		// keys/length are asked of struct and array values only (a leaf of a value format — xml, json, toml —
+		// is a scalar whose jq value may itself be an object; that is not tree navigation)
+		_, isCompound := n.dv.V.(*decode.Compound)
+		nodes[i] = []any{interp.VerifC12Wrap(n.dv), small, isCompound}
 	}
 	pany := make([]any, len(ps))
 	pss := make([]string, len(ps))
@@ -380,7 +384,7 @@ func runTree(o *hlib.Out, r *hlib.Rand, tc treeCase, maxNodes int, note string) 
 		if i > 0 {
 			sb.WriteString(" ; ")
 		}
-		if len(a) != 11 {
+		if len(a) != 12 {
 			sb.WriteString("bad")
 			continue
 		}
@@ -400,8 +404,30 @@ func runTree(o *hlib.Out, r *hlib.Rand, tc treeCase, maxNodes int, note string) 
 				parents = strings.Join(ids, ",")
 			}
 		}
-		fmt.Fprintf(&sb, "%s %s %s %s %s %s %s %s %s %s %s", path, t.idOf(a[1]), t.idOf(a[2]), t.idOf(a[3]), t.idOf(a[4]),
-			t.idOf(a[5]), parents, fmtTup(a[7]), fmtTup(a[8]), fmtHash(a[9]), fmtHash(a[10]))
+		// keys / the value under each key / length of a compound: `n` for a leaf, else <keys>=<ids>=<length>
+		keys := "err"
+		switch ka := a[11].(type) {
+		case nil:
+			keys = "n"
+		case []any:
+			if len(ka) == 3 {
+				kl, ok1 := ka[0].([]any)
+				vl, ok2 := ka[1].([]any)
+				if ok1 && ok2 {
+					ids := make([]string, len(vl))
+					for j, x := range vl {
+						ids[j] = t.idOf(x)
+					}
+					idss := "-"
+					if len(ids) > 0 {
+						idss = strings.Join(ids, ",")
+					}
+					keys = fmt.Sprintf("%s=%s=%v", fmtPath(kl), idss, ka[2])
+				}
+			}
+		}
+		fmt.Fprintf(&sb, "%s %s %s %s %s %s %s %s %s %s %s %s", path, t.idOf(a[1]), t.idOf(a[2]), t.idOf(a[3]), t.idOf(a[4]),
+			t.idOf(a[5]), parents, fmtTup(a[7]), fmtTup(a[8]), fmtHash(a[9]), fmtHash(a[10]), keys)
 	}
 	sb.WriteString(" |")
 	if len(ps) == 0 {
@@ -444,6 +470,9 @@ func runTree(o *hlib.Out, r *hlib.Rand, tc treeCase, maxNodes int, note string) 
 	o.Stat("nested_formats", nFmt)
 	o.Stat("gap_fields_in_arrays", nGapInArr)
 	if t.nodes[0].dv.Err != nil {
+		if strings.Contains(t.nodes[0].dv.Err.Error(), "already exist") {
+			o.Stat("partial_trees_duplicate_field_name_error", 1)
+		}
 		o.Stat("partial_trees", 1)
 	}
 	// non-trivial: at least one compound below the root (depth >= 2); class = format + shape
